@@ -145,14 +145,18 @@ DECODERS = {
 }
 
 
-def check(chain, prefix, suffix, target, identity=True, max_delay=4):
+THOROUGH_ALPHABET = [chr(c) for c in range(32, 127)] + ["\n", "\r", "\t", "\u00e9", "\u201d"]
+
+
+def check(chain, prefix, suffix, target, identity=True, max_delay=4, alphabet=None):
     """Explores all strings over ALPHABET through encode then decode.  Returns (ok, counterexample or None, stats)."""
     step, _ = DECODERS[target]
     # open the constant
     st = "N"
     if prefix != '"':
         return False, {"why": f"constant does not open with a double quote but with {prefix!r}"}, {}
-    images = {c: encode_char(chain, c) for c in ALPHABET}
+    ALPHABET_ = alphabet or ALPHABET
+    images = {c: encode_char(chain, c) for c in ALPHABET_}
     # product state: (decoder state, pending expected text not yet emitted, emitted text not yet expected)
     start = ("N", "", "")
     seen = {start: ""}
@@ -181,7 +185,7 @@ def check(chain, prefix, suffix, target, identity=True, max_delay=4):
             return False, {"input": path, "encoded": prefix + "".join(images[c] for c in path) + suffix, "why": "the constant is not terminated by its closing quote (dangling escape)"}, {"states": len(seen)}
         if identity and (ep != op):
             return False, {"input": path, "encoded": prefix + "".join(images[c] for c in path) + suffix, "why": f"reads back as a different string (expected ...{ep!r}, got ...{op!r})"}, {"states": len(seen)}
-        for c in ALPHABET:
+        for c in ALPHABET_:
             dd, ep, op = dstate, exp_pend + c, out_pend
             fail = None
             for ch in images[c]:
@@ -217,4 +221,4 @@ def check(chain, prefix, suffix, target, identity=True, max_delay=4):
             if nxt not in seen:
                 seen[nxt] = path + c
                 work.append(nxt)
-    return True, None, {"states": len(seen), "edges": n_edges, "alphabet": len(ALPHABET)}
+    return True, None, {"states": len(seen), "edges": n_edges, "alphabet": len(ALPHABET_)}
